@@ -47,6 +47,7 @@ FILEMAP = {
     "backend/wmi/wmi_qsim_processor.py": ["C18", "C17"],
     "backend/wmi/wmi_qc_processor.py": ["C18", "C17"],
     "backend/processor_configuration.py": ["C18"],
+    "backend/wmi/wmi_options.py": ["C18"],
     "util/networking.py": ["C17"],
     "util/const.py": ["C17", "C18"],
     "util/util.py": ["C04", "C05"],
